@@ -241,6 +241,27 @@ class C20(Prop):
                 outer["nodes"].append({"name": "sub", "kind": "graph", "inner": 0})
                 rng.shuffle(outer["nodes"])
                 program = [inner, outer]
+            if r >= 0.75 and rng.random() < 0.35:
+                # a value produced at the top and consumed ONLY two (or three) levels down; the containers on the way have other nodes too
+                levels = rng.choice([2, 2, 3])
+                prog = [{"name": "deep", "nodes": [{"name": "use", "kind": "fn", "params": [["v", None], ["b0", None]], "dataOuts": ["o"], "body": {"b": "tag", "t": "use"}}], "bound": []}]
+                l0 = [{"name": "f0", "kind": "fn", "params": [["a0", None]], "dataOuts": ["b0"], "body": {"b": "tag", "t": "f0"}},
+                      {"name": "C0", "kind": "graph", "inner": 0}]
+                if rng.random() < 0.5:
+                    l0.reverse()
+                prog.append({"name": "L0", "nodes": l0, "bound": []})
+                for lv in range(1, levels):
+                    nodes_l = [{"name": f"g{lv}", "kind": "fn", "params": [[f"q{lv}", None]], "dataOuts": [f"w{lv}"], "body": {"b": "tag", "t": f"g{lv}"}},
+                               {"name": f"C{lv}", "kind": "graph", "inner": len(prog) - 1}]
+                    if rng.random() < 0.5:
+                        nodes_l.reverse()
+                    prog.append({"name": f"L{lv}", "nodes": nodes_l, "bound": []})
+                top = [{"name": "prod", "kind": "fn", "params": [["x", None]], "dataOuts": ["v"], "body": {"b": "tag", "t": "prod"}},
+                       {"name": f"C{levels}", "kind": "graph", "inner": len(prog) - 1},
+                       {"name": "fin", "kind": "fn", "params": [["o", None]], "dataOuts": ["done"], "body": {"b": "tag", "t": "fin"}}]
+                rng.shuffle(top)
+                prog.append({"name": "root", "nodes": top, "bound": []})
+                program = prog
             if rng.random() < 0.6:
                 program = prefixify(rng, program)
             yield {"program": program}
